@@ -56,6 +56,13 @@ def cases(tier, seed):
                         for h in (G.HEADS if (tier == 'thorough' or n == 2) else G.HEADS[:1]):
                             progs.append({'dim': dim, 'cin': 3, 'size': G._size(dim),
                                           'stages': pre + [{'op': 'concat', 'members': list(mem)}] + post, 'head': dict(h)})
+    # the time-axis concat spelled with a negative index
+    for p in G.gen_base(2):
+        for i, st in enumerate(p['stages']):
+            if st['op'] == 'timecat':
+                q = G._copy(p)
+                q['stages'][i]['neg'] = True
+                progs.append(q)
     # a layer excluded by name at every conv position of the depth<=2 base programs
     for p in G.gen_base(2):
         for i, s in enumerate(p['stages']):
